@@ -168,6 +168,14 @@ func main() {
 		os.Exit(2)
 	}
 	prog, _ := ssautil.AllPackages(pkgs, ssa.InstantiateGenerics)
+	if cfg.Stubs == nil {
+		cfg.Stubs = map[string]string{}
+	}
+	for k, v := range map[string]string{"crypto/sha1.New": rtPath + ".NewSHA1H", "crypto/sha1.Sum": rtPath + ".SHA1Sum"} {
+		if _, ok := cfg.Stubs[k]; !ok {
+			cfg.Stubs[k] = v
+		}
+	}
 	eng := &Engine{prog: prog, pkgs: pkgs, ssaPkgs: map[string]*ssa.Package{}, stubMap: cfg.Stubs,
 		blackhole: append(append([]string{}, defaultBlackhole...), cfg.Blackhole...), trace: *trace, env: cfg.Env, maxprocs: cfg.MaxProcs, tier: *tier}
 	if eng.maxprocs == 0 {
